@@ -252,9 +252,20 @@ class LabelsInSessions(Stage):
             labels[:] = [mc.name + ':' for mc in W.conns.values()] + [
                 '%s: %d%s' % (mc.name, o.id, model.letters(o.gen)) for mc in W.conns.values() for o in mc.all_objects() if o.id != 1]
         items = []
+        if d.chance(0.35) and len(specs) > 3:
+            # an early connection announces an app id that reads like the name of a (later) connection: a name always means the
+            # connection of that name first
+            k = d.int(1, len(specs) // 2)
+            specs.insert(k, dict(conn=specs[0]['conn'], t_us=specs[k]['t_us'], sent=True, iface='xdg_toplevel', id=900 + d.int(0, 3), name='set_app_id',
+                                 args=[['str', d.choice(['b', 'B', 'c', 'b', 'editor'])]]))
         for m in specs:
             while labels and d.chance(0.3):
-                k = d.weighted([(5, 'select'), (3, 'all'), (4, 'filter-label'), (2, 'break-label'), (2, 'reset'), (3, 'list-label')])
+                k = d.weighted([(5, 'select'), (3, 'all'), (4, 'filter-label'), (2, 'break-label'), (2, 'reset'), (3, 'list-label'), (2, 'select-other')])
+                if k == 'select-other':
+                    # lower case, an app id, or a name that denotes nothing (refused: the selection stays as it is)
+                    items.append(['cmd', 'connection ' + d.choice(['b', 'c', 'a', 'Q', 'ZZ', 'editor', 'nope'])])
+                    items.append(['cmd', 'list ' + d.choice(labels), 'check'])
+                    continue
                 if k == 'select': items.append(['cmd', 'connection ' + d.choice([mc.name for mc in W.conns.values()])])
                 elif k == 'all': items.append(['cmd', 'connection all'])
                 elif k == 'filter-label': items.append(['cmd', 'filter ' + d.choice(labels)])
@@ -282,19 +293,30 @@ class LabelsInSessions(Stage):
         segs = s.run(case['items'], prompt=False)
         W = model.MWorld()
         sel = None
+        app_ids = {}
         nline = 0
         checked = 0
         for seg in segs:
             it = s.io.items[seg.index] if seg.index < len(s.io.items) else None
             if seg.kind == 'line':
-                W.step(case['specs'][nline])
+                sp = case['specs'][nline]
+                rec = W.step(sp)
+                if sp['name'] == 'set_app_id' and sp['args'] and sp['args'][0][0] == 'str' and sp['args'][0][1]:
+                    app_ids[rec['conn'].name] = sp['args'][0][1]
                 nline += 1
                 continue
             if seg.kind != 'cmd':
                 continue
             if seg.text.startswith('connection '):
                 a = seg.text.split(' ', 1)[1]
-                sel = None if a == 'all' else a
+                names = [c.name for c in W.conns.values()]
+                if a == 'all':
+                    sel = None
+                elif a.lower() in [n.lower() for n in names]:
+                    sel = next(n for n in names if n.lower() == a.lower())          # by name first ...
+                elif a.lower() in [v.lower() for v in app_ids.values()]:
+                    sel = next(n for n in names if app_ids.get(n, '').lower() == a.lower())      # ... then by app id
+                # else: refused, the selection stays
                 continue
             if len(it) < 3 or it[2] not in ('check', 'check-filter'):
                 continue
